@@ -48,6 +48,10 @@ func RegisterInputValidator(k int, v string) error {
 		return fmt.Errorf("input checker with key '%d' already registered", k)
 	}
 	preInputRegexStr[k], err = regexp.Compile(v)
+	if err != nil {
+		// nothing is registered for a pattern that does not compile (a nil entry would crash every later check)
+		delete(preInputRegexStr, k)
+	}
 	return err
 }
 
